@@ -138,11 +138,13 @@ SemRecurrentV(op, attrs, inputs, nout) ==
    LET X == In(inputs, 1) W == In(inputs, 2) R == In(inputs, 3) B == In(inputs, 4) sl == In(inputs, 5)
        h0 == In(inputs, 6) c0 == In(inputs, 7) P == In(inputs, 8)
        Hd == AttrV(attrs, "hidden_size", 0)
-       acts == AttrV(attrs, "activations", DefaultActs(op))
+       acts0 == AttrV(attrs, "activations", DefaultActs(op))
+       \* the ONNX documentation spells the names "Relu", "Tanh", "Sigmoid": such a name is refused, or it is honoured as THAT function
+       acts == [i \in 1..Len(acts0) |-> CASE acts0[i] = "Relu" -> "relu" [] acts0[i] = "Tanh" -> "tanh" [] acts0[i] = "Sigmoid" -> "sigmoid" [] OTHER -> acts0[i]]
        refusable == \/ HasAttr(attrs, "clip") \/ AttrV(attrs, "direction", "forward") # "forward" \/ ~IsNil(sl)
                     \/ HasAttr(attrs, "activation_alpha") \/ HasAttr(attrs, "activation_beta")
    IN IF Len(acts) # NActs(op) THEN [ok |-> TRUE, allowed |-> MustError]
-      ELSE IF \E i \in 1..Len(acts) : acts[i] \notin KnownActs THEN [ok |-> TRUE, allowed |-> ValueOrError(<<>>)]  \* e.g. ONNX spelling "Tanh": refuse or honour
+      ELSE IF \E i \in 1..Len(acts) : acts[i] \notin KnownActs THEN [ok |-> TRUE, allowed |-> ValueOrError(<<>>)]  \* a name the library does not know: refuse (or honour)
       ELSE IF refusable THEN [ok |-> TRUE, allowed |-> ValueOrError(<<>>)]       \* generated only to be refused
       ELSE IF Hd < 1 \/ ~RecShapesOK(op, inputs, Hd) THEN [ok |-> TRUE, allowed |-> NoCrash]
       ELSE LET Bt == X.shape[2] S == X.shape[1]
@@ -156,6 +158,6 @@ SemRecurrentV(op, attrs, inputs, nout) ==
                        outs == IF op = "LSTM" THEN <<Y, Yh, T(X.dt, <<1, Bt, Hd>>, Flat2(run.C, Bt, Hd))>> ELSE <<Y, Yh>>
                        a == MustValue(Take(outs, nout))
                    IN [ok |-> TRUE,
-                       allowed |-> Weaken(X.dt # "f32" \/ (op = "LSTM" /\ AttrV(attrs, "input_forget", 0) # 0), a)]
+                       allowed |-> Weaken(X.dt # "f32" \/ (op = "LSTM" /\ AttrV(attrs, "input_forget", 0) # 0) \/ acts # acts0, a)]
 SemRecurrent(op, attrs0, inputs0, nout) == Let(attrs0, LAMBDA attrs : Let(inputs0, LAMBDA inputs : SemRecurrentV(op, attrs, inputs, nout)))
 =============================================================================
